@@ -393,7 +393,7 @@ fn check_pair(rep: &mut Report, x: &PV, y: &PV, xy: &[Option<bool>; 6], yx: &[Op
     if ok {
         rep.count("pairs_ok");
         rep.nontrivial(fnv(format!("{}|{}|{}", x.text(), y.text(), literal).as_bytes()));
-        if rep.samples.len() < 10 && fnv(x.text().as_bytes()) % 211 == 7 {
+        if rep.samples.len() < 10 && (fnv(x.text().as_bytes()) ^ fnv(y.text().as_bytes())) % 97 == 7 {
             rep.sample(json!({"l": x.text(), "r": y.text(), "results(==,!=,<,<=,>,>=)": format!("{:?}", xy)}));
         }
     }
